@@ -156,6 +156,10 @@ def generate(eng, c):
         # lemma instances named by the contract (each lemma is proved in the same run)
         for h in c.hints:
             st.assume(callcontract.clause(ex, st, c, h, {}))
+        for k, h in enumerate(getattr(c, "entry_asserts", [])):
+            g = callcontract.clause(ex, st, c, h, {})
+            eng.obligation(ex, st, f"entry-assert[{k}]", g, "assert")
+            st.assume(g)
         old = st.fork()
         st.old = old
         entry_heap = {oid: dict(obj) for oid, obj in st.heap.items()}
@@ -164,6 +168,10 @@ def generate(eng, c):
 
             def collect(st1, val):
                 cur = st1.lookup("__yielded__")
+                if c.yield_view is not None:
+                    # objects cannot be list elements in the logic: the contract names the projection of a
+                    # yielded object (a tuple of its fields) that the `yielded` ghost records
+                    val = callcontract.clause_value(ex, st1, c, c.yield_view, [val])
                 st1.frames[0]["__yielded__"] = V("list", z3.Concat(cur.t, z3.Unit(box(val))))
                 return [(st1, (NEXT, None))]
             fr.yield_handler = collect
